@@ -335,19 +335,24 @@ def Graph.call (g : Graph) (env : String → Option Val) (w : World) (fuel : Nat
 def Graph.getHash (g : Graph) (env : String → Option Val) (w : World) (fuel : Nat) : Option (Outcome × Nat) :=
   run g fuel (g.initSt env .computeHash w) 0
 
+/-- the static hash of one node given those of all earlier nodes (`Edge._hash_graph`; the placeholder on used inputs) -/
+def hgNode (g : Graph) (acc : List (Except Err NHash)) (i : Nat) (nd : Node) : Except Err NHash :=
+  if g.usedInputs.contains i then .ok placeholder
+  else match nd.edge with
+    | none => .error .internal
+    | some e =>
+      match nd.parents.mapM (fun p => acc.getD p (.error .internal)) with
+      | .error err => .error err
+      | .ok hs => e.hashGraph hs
+
+/-- the static hashes of the nodes `i, i+1, …` appended to those of the earlier nodes -/
+def hgFrom (g : Graph) : List Node → Nat → List (Except Err NHash) → List (Except Err NHash)
+  | [], _, acc => acc
+  | nd :: rest, i, acc => hgFrom g rest (i + 1) (acc ++ [hgNode g acc i nd])
+
 /-- `hash_graph(inputs, output)` with the placeholder on the inputs; memoised per node in Python, a
 list built in node order here. -/
-def Graph.hashGraphAll (g : Graph) : List (Except Err NHash) :=
-  g.nodes.zipIdx.foldl (fun (acc : List (Except Err NHash)) (nd, i) =>
-    let r : Except Err NHash :=
-      if g.usedInputs.contains i then .ok placeholder
-      else match nd.edge with
-        | none => .error .internal
-        | some e =>
-          match nd.parents.mapM (fun p => acc.getD p (.error .internal)) with
-          | .error err => .error err
-          | .ok hs => e.hashGraph hs
-    acc ++ [r]) []
+def Graph.hashGraphAll (g : Graph) : List (Except Err NHash) := hgFrom g g.nodes 0 []
 
 def Graph.hashGraph (g : Graph) : Except Err NHash :=
   (g.hashGraphAll.getD g.output (.error .internal)).map .graph
